@@ -8,6 +8,7 @@ mod image;
 mod iohook;
 mod stress;
 mod util;
+mod wal;
 
 fn arg(args: &[String], name: &str) -> Option<String> {
     args.iter().position(|a| a == name).and_then(|i| args.get(i + 1).cloned())
@@ -45,6 +46,7 @@ fn main() {
         "alloc-freelist" => alloc::run_freelist(seed, cases, &mut sink),
         "alloc-probe" => alloc::run_probe(seed, cases, &mut sink),
         "alloc-lookup" => alloc::run_lookup(seed, cases, &mut sink),
+        "wal" => wal::run(seed, cases, &mut sink),
         "core-pp" => core_pp::run(seed, cases, &mut sink),
         "core-mp" => core_mp::run(seed, cases, &mut sink),
         "core-mp-corpus" => {
